@@ -212,8 +212,10 @@ Fixpoint prop_ll_steps (M cap : Z) (prev_open : list N) (ops : list lop) (obs : 
       (l_panics st =? 0) && (l_dropped st =? 0) && (0 <=? l_held st) && (0 <=? l_blocked st) &&
       (* cap, once every capacity change has been applied *)
       (if settled then used <=? cap' else true) &&
-      (* released / configured capacity is usable: no acceptor is held back while a permit is free *)
+      (* released / configured capacity is usable: no acceptor is held back while a permit is free,
+         and every permit not in use by an acceptor or an open connection is back in the semaphore *)
       (if settled && (0 <? l_blocked st) then cap' <=? used else true) &&
+      (if settled then M - l_cur st =? cap' - used else true) &&
       (* no established connection disappears except by its own Close *)
       forallb (fun c => mem_N c (l_open st) || match o with OClose c' => N.eqb c c' | _ => false end) prev_open &&
       prop_ll_steps M cap' (l_open st) ot bt
